@@ -145,14 +145,14 @@ def plan_for(ctx, n):
         # independent; walks: all (include set, exclude set) pairs in the thorough tier
         return dict(full=True, full_mb=not ctx.quick, both_modes=True, n_mbm=8, n_oct=0, n_ind=0, full_walk=not ctx.quick,
                     topo_frac=0.25, n_walk=10, n_walkopt=5, p_model=0.004, p_cover=ctx.pick(0.25, 1.0), n_cover=ctx.pick(2, 4),
-                    p_porcelain=ctx.pick(0.5, 1.0), n_porcelain=ctx.pick(1, 3))
+                    p_porcelain=ctx.pick(0.35, 1.0), p_porcelain_slow=ctx.pick(0.3, 1.0), n_porcelain=ctx.pick(1, 2))
     if n == 5:
         return dict(full=False, both_modes=False, n_mbm=4, n_oct=3, n_ind=2, full_walk=False,
                     n_walk=4, n_walkopt=2, topo_frac=0.5, p_model=0.0005 if not ctx.quick else 0.004,
-                    p_cover=ctx.pick(0.25, 0.05), n_cover=2, p_porcelain=ctx.pick(0.5, 0.1), n_porcelain=1)
+                    p_cover=ctx.pick(0.25, 0.05), n_cover=2, p_porcelain=ctx.pick(0.35, 0.1), p_porcelain_slow=0.3, n_porcelain=1)
     return dict(full=False, both_modes=False, n_mbm=6, n_oct=4, n_ind=3, full_walk=False,
                 n_walk=6, n_walkopt=3, topo_frac=0.5, p_model=0.001, p_cover=0.05, n_cover=2,
-                p_porcelain=0.1, n_porcelain=1)
+                p_porcelain=0.1, p_porcelain_slow=0.3, n_porcelain=1)
 
 
 def replay_dump(ctx, pool, n, dump, label, budget_s):
@@ -780,7 +780,7 @@ def run(ctx):
             if i < ndisk:
                 t["n"] = min(n, 60)
                 t["disk"] = os.path.join(d, f"disk{i}")
-                t["cli"] = i < ctx.pick(4, 30)
+                t["cli"] = i < ctx.pick(3, 30)
             tasks.append(t)
         t0 = time.time()
         big = {"histories": 0, "queries": 0, "mismatch": 0, "git": 0, "cg": 0, "cg_skipped": []}
@@ -887,7 +887,7 @@ def replay(ctx, path):
         q2 = L.q_ind(h, q["s"])
     elif k in ("pm", "pc", "pa", "pb", "pi", "pr"):
         if not on_disk:
-            L.use_disk_refs(h, os.path.join(d, "refs"))
+            L.use_memory_refs(h)
         if k in ("pm", "pc"):
             L.set_branches(h, q["s"])
             print(f"branches refs/heads/c<n> at commits {q['s']}" + (" (recorded through the command line; replayed through porcelain)" if q.get("cli") else ""))
